@@ -41,6 +41,7 @@ def probeF (k : Nat) : Functor String PV :=
 def atom (n : String) : Option (Fn String PV) :=
   match n with
   | "p1" => some (.ofFunctor (probeF 1)) | "p2" => some (.ofFunctor (probeF 2)) | "p3" => some (.ofFunctor (probeF 3))
+  | "p4" => some (.ofFunctor (probeF 4)) | "p5" => some (.ofFunctor (probeF 5))
   | "swap" => some (.ofFunctor swapF) | "dup" => some (.ofFunctor (dupF 2))
   | "dig1" => some (.ofFunctor (digF 1)) | "dig2" => some (.ofFunctor (digF 2))
   | "bury1" => some (.ofFunctor (buryF 1)) | "bury2" => some (.ofFunctor (buryF 2))
@@ -140,7 +141,7 @@ def handle : Handler := fun op a =>
         | some (.values vs) => ";".intercalate vs
         | some (.curried _) => "curried"
         | none => "void"
-      pure s!"ok leaves={fmtNats ops} ll={if v.leftLinear then 1 else 0} nfun={v.compile.length} term={res} view={v.denote env}"
+      pure s!"ok leaves={fmtNats ops} ll={if v.leftLinear then 1 else 0} nfun={v.compile.length} arity={Comp.arity ⟨v.compile, []⟩} term={res} view={v.denote env}"
   | "c14_graph" => orBad do
       let t ← (a.get? "tree").bind parse
       let (iv, _) ← decorate 1000 t
